@@ -28,13 +28,14 @@ FN = "ibldsp.voltage.saturation"
 
 
 def _mean_of_compare(du, e, at):
+    """(mask comparison, axis, call, 'fraction'|'count') behind a channel-proportion operand."""
     v = expand_name(du, e, at)
-    if isinstance(v, ast.Call) and call_name(v) == "mean" and v.args:
+    if isinstance(v, ast.Call) and call_name(v) in ("mean", "count_nonzero", "sum") and v.args:
         ax = kwarg(v, "axis") or (v.args[1] if len(v.args) > 1 else None)
-        cmp_ = v.args[0]
+        cmp_ = expand_name(du, v.args[0], at)
         if isinstance(cmp_, ast.Compare) and len(cmp_.ops) == 1:
-            return cmp_, ax, v
-    return None, None, v
+            return cmp_, ax, v, ("fraction" if call_name(v) == "mean" else "count")
+    return None, None, v, None
 
 
 def d1_comparators(ctx):
@@ -57,9 +58,22 @@ def d1_comparators(ctx):
     for a in comb[1]:
         if not (isinstance(a, ast.Compare) and len(a.ops) == 1):
             raise AnalysisError(f"saturation: proportion test `{src(a)}` is not a comparison")
-        ctx.check(isinstance(a.ops[0], ast.Gt) and loc_name(a.comparators[0]) == "proportion", fi, a, a, "strictly more than the proportion of channels",
-                  f"`{src(a)}`: the proportion test is not a strict `> proportion`", key="prop:" + (loc_name(a.left) or "?"))
-        cmp_, ax, full = _mean_of_compare(du, a.left, comb[2])
+        cmp_, ax, full, unit = _mean_of_compare(du, a.left, comb[2])
+        if unit == "count":
+            # count of channels > proportion * n_channels  is the same test in integer form
+            try:
+                rhs = Evaluator(resolve=lambda e: repo.resolve_expr(fi, e)).ev(expand_name(du, a.comparators[0], comb[2]))
+            except Undecided:
+                rhs = None
+            nsyms = [x for x in (rhs.symbols() if rhs is not None else []) if x not in ("proportion",)]
+            okc = isinstance(a.ops[0], ast.Gt) and rhs is not None and len(nsyms) == 1 and ("shape[0]" in nsyms[0] or nsyms[0] in ("nc", "len(data)")) \
+                and rhs == Poly.sym("proportion") * Poly.sym(nsyms[0])
+            ctx.check(okc, fi, a, a, "strictly more than proportion * n_channels channels",
+                      f"`{src(a)}` with threshold `{src(expand_name(du, a.comparators[0], comb[2]))}`: not `count > proportion * n_channels` - when proportion * n_channels is a whole number, exactly that many "
+                      "offending channels are (not) flagged, unlike the strict proportion rule", key="prop:" + (loc_name(a.left) or "?"))
+        else:
+            ctx.check(isinstance(a.ops[0], ast.Gt) and loc_name(a.comparators[0]) == "proportion", fi, a, a, "strictly more than the proportion of channels",
+                      f"`{src(a)}`: the proportion test is not a strict `> proportion`", key="prop:" + (loc_name(a.left) or "?"))
         if cmp_ is None:
             # the slew fraction is padded: r_[mean(...), 0]
             v = expand_name(du, a.left, comb[2])
@@ -70,9 +84,9 @@ def d1_comparators(ctx):
                           f"`{src(v)}`: the slew fraction is not padded at the end: flags are shifted by one sample", key="pad")
                 # the first part: find its definition before the pad statement
                 nm = next((loc_name(x) for x in parts if loc_name(x)), None)
-                ds = [d for d in du.defs if d.var == nm and d.kind == "assign" and isinstance(d.value, ast.Call) and call_name(d.value) == "mean"]
+                ds = [d for d in du.defs if d.var == nm and d.kind == "assign" and isinstance(d.value, ast.Call) and call_name(d.value) in ("mean", "count_nonzero", "sum")]
                 if ds:
-                    cmp_, ax, full = _mean_of_compare(du, ds[0].value, ds[0].stmt)
+                    cmp_, ax, full, unit = _mean_of_compare(du, ds[0].value, ds[0].stmt)
         if cmp_ is None:
             raise AnalysisError(f"saturation: cannot find the channel-fraction expression behind `{src(a.left)}`")
         ctx.check(const_value(ax) == (True, 0), fi, full, full, "fraction is taken over channels (axis 0)", f"fraction is taken over axis {src(ax) if ax else None}, not over channels",
@@ -234,6 +248,6 @@ def d4_callsite(ctx):
 
 
 def run(ctx):
-    d1_comparators(ctx)
-    d2_d3_mute(ctx)
-    d4_callsite(ctx)
+    ctx.run(d1_comparators)
+    ctx.run(d2_d3_mute)
+    ctx.run(d4_callsite)
